@@ -363,10 +363,10 @@ func diffCase(id int, seed int64, out *json.Encoder, big bool) {
 		Old: []term{}, New: []term{}, Added: []term{}, Removed: []term{}, Cb: [][]int{}, Cur: [][]int{}}
 
 	// ---- build the pair
-	modes := []string{"lineage", "lineage", "siblings", "unrelated", "emptied-old", "emptied-new", "fresh-old", "fresh-new", "nil-old", "same"}
+	modes := []string{"lineage", "lineage", "siblings", "unrelated", "emptied-old", "emptied-new", "fresh-old", "fresh-new", "nil-old", "same", "rebuilt", "rebuilt"}
 	ev.Mode = modes[rng.Intn(len(modes))]
 	if big {
-		ev.Mode = []string{"lineage", "lineage", "siblings", "same"}[rng.Intn(4)]
+		ev.Mode = []string{"lineage", "lineage", "siblings", "same", "rebuilt"}[rng.Intn(5)]
 	}
 	base := r.fresh()
 	nb := rng.Intn(2*cfg.NK + 1)
@@ -432,6 +432,54 @@ func diffCase(id int, seed int64, out *json.Encoder, big bool) {
 	case "nil-old":
 		oldS = nil
 		newS = base
+	case "rebuilt":
+		// one side got to its contents through inserts and deletes, the other holds the same (or neighbouring) contents built by
+		// inserts only, in ascending order: different histories of the same map
+		oldS = base
+		if !big {
+			r.mutate(oldS, 2+rng.Intn(2*cfg.NK), 5)
+		}
+		if big || rng.Intn(2) == 0 {
+			// ... deleting down to exactly a power of the branch factor, where the height rule has its boundary
+			pows := []int{}
+			for p := int(cfg.Bf); p < cfg.NK; p *= int(cfg.Bf) {
+				pows = append(pows, p)
+			}
+			if len(pows) > 0 {
+				target := pows[rng.Intn(len(pows))]
+				for len(oldS.model) < target+1+rng.Intn(3) && len(oldS.model) < cfg.NK {
+					k := 1 + rng.Intn(cfg.NK)
+					if _, ok := oldS.model[k]; !ok {
+						v := 1 + rng.Intn(2)
+						if err := oldS.m.Insert(ctx, r.kc.Key(k), r.vc.Val(v)); err != nil {
+							panic(err)
+						}
+						oldS.model[k] = v
+					}
+				}
+				for len(oldS.model) > target {
+					ps := pairsOf(oldS.model)
+					p := ps[rng.Intn(len(ps))]
+					if err := oldS.m.Delete(ctx, r.kc.Key(p[0]), r.vc.Val(p[1])); err != nil {
+						panic(err)
+					}
+					delete(oldS.model, p[0])
+				}
+			}
+		}
+		newS = r.fresh()
+		for _, p := range pairsOf(oldS.model) {
+			if err := newS.m.Insert(ctx, r.kc.Key(p[0]), r.vc.Val(p[1])); err != nil {
+				panic(err)
+			}
+			newS.model[p[0]] = p[1]
+		}
+		if rng.Intn(2) == 0 {
+			r.mutate(newS, 1, 0)
+		}
+		if rng.Intn(2) == 0 {
+			oldS, newS = newS, oldS
+		}
 	case "same":
 		oldS = base
 		r.persist(oldS)
